@@ -85,6 +85,133 @@ def normalise_locals(tree, rel):
     return renamed
 
 
+# -------------------------------------------------------------------- temporaries that the reference does not have
+# A local that is not among the function's recorded locals, is bound once by a plain assignment and read once, in the
+# very next statement, at a position evaluated exactly once, is a mere name for a sub-expression: it is written back
+# in place before the rules look at the function.  (Single use: no aliasing is lost.  Adjacent: no call is moved
+# across another statement.)  Everything else is left as it is.
+def _once_positions(st):
+    """Expression roots of statement st that are evaluated exactly once, unconditionally, when st starts."""
+    if isinstance(st, (ast.Assign, ast.AnnAssign, ast.AugAssign, ast.Return, ast.Expr)):
+        roots = [st.value] if getattr(st, "value", None) is not None else []
+        for t in (st.targets if isinstance(st, ast.Assign) else [getattr(st, "target", None)]):
+            if isinstance(t, (ast.Subscript, ast.Attribute)):
+                roots.append(t)
+        return roots
+    if isinstance(st, ast.For):
+        return [st.iter]
+    if isinstance(st, ast.If):
+        return [st.test]
+    if isinstance(st, ast.With):
+        return [i.context_expr for i in st.items]
+    if isinstance(st, ast.Raise):
+        return [x for x in (st.exc, st.cause) if x is not None]
+    if isinstance(st, ast.Assert):
+        return [st.test]
+    return []
+
+
+def _find_once(root, name):
+    """The single Load of `name` under root if it sits at an evaluated-once position, else None."""
+    found = []
+
+    def visit(n, ok):
+        if isinstance(n, ast.Name) and n.id == name and isinstance(n.ctx, ast.Load):
+            found.append((n, ok))
+            return
+        if isinstance(n, ast.Lambda):
+            for c in ast.iter_child_nodes(n):
+                visit(c, False)
+            return
+        if isinstance(n, (ast.ListComp, ast.SetComp, ast.GeneratorExp, ast.DictComp)):
+            for k, g in enumerate(n.generators):
+                visit(g.iter, ok and k == 0)
+                for i in g.ifs:
+                    visit(i, False)
+                visit(g.target, False)
+            for f in ("elt", "key", "value"):
+                if hasattr(n, f):
+                    visit(getattr(n, f), False)
+            return
+        if isinstance(n, ast.IfExp):
+            visit(n.test, ok)
+            visit(n.body, False)
+            visit(n.orelse, False)
+            return
+        if isinstance(n, ast.BoolOp):
+            for k, v in enumerate(n.values):
+                visit(v, ok and k == 0)
+            return
+        for c in ast.iter_child_nodes(n):
+            visit(c, ok)
+    visit(root, True)
+    return found
+
+
+def inline_new_temps(tree, rel):
+    ref = _reference_locals().get(rel)
+    if not ref:
+        return 0
+    total = 0
+    for qn, fn in iter_functions(tree):
+        want = ref.get(qn) or []          # functions without locals are not listed
+        have = function_locals(fn)
+        new = [h for h in have if h not in want]
+        if not new or not set(want) <= set(have):
+            continue
+        changed = True
+        while changed:
+            changed = False
+            stores, loads = {}, {}
+            for n in ast.walk(fn):
+                if isinstance(n, ast.Name):
+                    d = stores if isinstance(n.ctx, (ast.Store, ast.Del)) else loads
+                    d[n.id] = d.get(n.id, 0) + 1
+            cands = {n for n in new if stores.get(n) == 1 and loads.get(n) == 1}
+            if not cands:
+                break
+
+            def process(body):
+                nonlocal changed
+                i = 0
+                while i < len(body):
+                    st = body[i]
+                    for arm in ("body", "orelse", "finalbody"):
+                        sub = getattr(st, arm, None)
+                        if isinstance(sub, list) and sub and isinstance(sub[0], ast.stmt) and not isinstance(st, (ast.FunctionDef, ast.ClassDef)):
+                            process(sub)
+                    for h in getattr(st, "handlers", []) or []:
+                        process(h.body)
+                    if isinstance(st, ast.Assign) and len(st.targets) == 1 and isinstance(st.targets[0], ast.Name) \
+                            and st.targets[0].id in cands and i + 1 < len(body):
+                        name, nxt = st.targets[0].id, body[i + 1]
+                        hits = [h for root in _once_positions(nxt) for h in _find_once(root, name)]
+                        if len(hits) == 1 and hits[0][1]:
+                            val = st.value
+
+                            class Sub(ast.NodeTransformer):
+                                def visit_Name(self, x):
+                                    return val if x.id == name and isinstance(x.ctx, ast.Load) else x
+                            for f, v in list(ast.iter_fields(nxt)):
+                                if isinstance(v, ast.expr):
+                                    setattr(nxt, f, Sub().visit(v))
+                                elif isinstance(v, list) and v and isinstance(v[0], ast.expr):
+                                    setattr(nxt, f, [Sub().visit(x) for x in v])
+                                elif isinstance(v, list) and v and isinstance(v[0], ast.withitem):
+                                    for wi in v:
+                                        wi.context_expr = Sub().visit(wi.context_expr)
+                            del body[i]
+                            cands.discard(name)
+                            changed = True
+                            nonlocal_total[0] += 1
+                            continue
+                    i += 1
+            nonlocal_total = [0]
+            process(fn.body)
+            total += nonlocal_total[0]
+    return total
+
+
 class ClassInfo:
     def __init__(self, name, module, node):
         self.name = name
@@ -149,6 +276,7 @@ class Program:
         self.modules = {}             # dotted name -> ModuleInfo
         self.by_rel = {}
         for rel, tree in trees.items():
+            inline_new_temps(tree, rel)
             normalise_locals(tree, rel)
             name = rel[:-3].replace("/", ".")
             if name.endswith(".__init__"):
